@@ -119,7 +119,7 @@ static void h_op(void)
     }
     free(mem); esl_gencode_Destroy(g);
   }
-  else if (!strcmp(op, "read")) {
+  else if (!strcmp(op, "read") || !strcmp(op, "readm")) {
     int64_t n; unsigned char *txt = h_unhex(h_arg("hex") ? h_arg("hex") : "-", &n);
     ESL_FILEPARSER *efp = esl_fileparser_CreateMapped((char *) txt, (int) n); ESL_GENCODE *g2 = NULL;
     int st2 = esl_gencode_Read(efp, NT, AA, &g2);
@@ -145,10 +145,10 @@ static void h_op(void)
     if (cs && strcmp(cs, "-")) { char *dup = strdup(cs), *tok, *sv; int64_t sum = 0;
       for (tok = strtok_r(dup, ",", &sv); tok; tok = strtok_r(NULL, ",", &sv)) { cuts[nc] = strtoll(tok, NULL, 10); sum += cuts[nc]; nc++; }
       free(dup);
-      if (sum != L || cuts[0] < 3) { free(cuts); free(txt); free(d); esl_gencode_Destroy(g); h_out("bad-op"); return; }
+      if (sum != L || cuts[0] < 2) { free(cuts); free(txt); free(d); esl_gencode_Destroy(g); h_out("bad-op"); return; }
     } else { cuts[0] = L; nc = 1; }
     sprintf(spoof, "prog -l %d %s %s", (int) h_argi("minlen", 20), using == 1 ? "-M" : (using == 2 ? "-m" : ""),
-            !strcmp(strand, "w") ? "--watson" : (!strcmp(strand, "c") ? "--crick" : ""));
+            !strcmp(strand, "w") ? "--watson" : (!strcmp(strand, "c") ? "--crick" : (!strcmp(strand, "n") ? "--watson --crick" : "")));
     go = esl_getopts_Create(options);
     esl_opt_ProcessSpoof(go, spoof);
     wrk = esl_gencode_WorkstateCreate(go, g);
@@ -171,6 +171,34 @@ static void h_op(void)
     h_out("%s", b);
     free(b); free(cuts); free(txt); free(d); if (rc) free(rc);
     esl_gencode_WorkstateDestroy(wrk); esl_getopts_Destroy(go); esl_gencode_Destroy(g);
+  }
+  else if (!strcmp(op, "decode")) {
+    /* esl_gencode_DecodeDigicodon for any int: the three characters stored (a read outside sym[] dies under ASan) */
+    ESL_GENCODE *g = esl_gencode_Create(NT, AA); char codon[4]; char *r;
+    codon[0] = codon[1] = codon[2] = codon[3] = 'x';
+    r = esl_gencode_DecodeDigicodon(g, (int) h_argi("d", 0), codon);
+    if (r != codon || codon[3] != '\0') h_out("bad-return"); else h_out("ok %s", h_hex(codon, 3));
+    esl_gencode_Destroy(g);
+  }
+  else if (!strcmp(op, "alttable")) {
+    char *mem = NULL; size_t msz = 0; FILE *fp = open_memstream(&mem, &msz);
+    status = esl_gencode_DumpAltCodeTable(fp); fclose(fp);
+    h_out("%s %s", h_status(status), h_hex(mem, (int64_t) msz));
+    free(mem);
+  }
+  else if (!strcmp(op, "compare")) {
+    /* compare id= init= [nt=] id2= init2= [nt2=] meta=0|1 */
+    ESL_GENCODE *g1 = make_code(&status), *g2; const char *init2 = h_arg("init2"); int st2;
+    ESL_ALPHABET *NT2 = (h_arg("nt2") && !strcmp(h_arg("nt2"), "rna")) ? NTR : NTD;
+    if (!g1) { h_out("%s", h_status(status)); return; }
+    g2 = esl_gencode_Create(NT2, AA);
+    st2 = esl_gencode_Set(g2, (int) h_argi("id2", 1));
+    if (st2 != eslOK) { esl_gencode_Destroy(g1); esl_gencode_Destroy(g2); h_out("%s", h_status(st2)); return; }
+    if (init2 && !strcmp(init2, "any")) esl_gencode_SetInitiatorAny(g2);
+    else if (init2 && !strcmp(init2, "aug")) esl_gencode_SetInitiatorOnlyAUG(g2);
+    st2 = esl_gencode_Compare(g1, g2, (int) h_argi("meta", 0));
+    h_out("ok %s", st2 == eslOK ? "same" : (st2 == eslFAIL ? "differ" : h_status(st2)));
+    esl_gencode_Destroy(g1); esl_gencode_Destroy(g2);
   }
   else if (!strcmp(op, "ntables")) {
     int id, n = 0; ESL_GENCODE *g = esl_gencode_Create(NT, AA); char *b = NULL; size_t cap = 0, len = 0; char tmp[32];
